@@ -282,7 +282,12 @@ class LRI(dict):
             self._init_ll()
 
     def copy(self):
-        return self.__class__(max_size=self.max_size, values=self)
+        # walk the linked list (oldest to newest) under the lock rather
+        # than reading through __getitem__, which would count hits,
+        # reorder an LRU source and lose the eviction order
+        with self._lock:
+            values = self._get_flattened_ll()[1:]
+        return self.__class__(max_size=self.max_size, values=values)
 
     def setdefault(self, key, default=None):
         with self._lock:
